@@ -45,7 +45,8 @@ func (t *taskState) fail(prop string, judged bool, step int, oracle, sig, format
 	if t.viol != nil || t.aborted != "" {
 		return
 	}
-	detail := fmt.Sprintf(format, a...)
+	detail := scrub(fmt.Sprintf(format, a...))
+	sig = scrub(sig)
 	if !judged {
 		t.aborted = fmt.Sprintf("client %d op %d: %s: %s", t.id, step, oracle, detail)
 		return
